@@ -18,6 +18,9 @@ from harness import kernel, layerb
 from harness.common import SEED, Check, MachineryError, cap, parse_printed_json, quiet_pydrex, run_tlc, scratch, write_ndjson
 
 PAR = dict(n=3.5, p=1.5, lam=5.0, M=125.0, phi=0.7)
+# parameter programme of the float scenarios: the laws hold for every value of the exponents, in particular where the
+# two exponents coincide (p = n: the CRSS drops out of the dislocation density) and at the corners of their ranges
+PARS = [PAR, dict(n=2.0, p=2.0, lam=0.0, M=12.5, phi=0.7), dict(n=3.5, p=3.5, lam=5.0, M=125.0, phi=1.0), dict(n=5.0, p=1.0, lam=10.0, M=200.0, phi=0.3), dict(n=1.5, p=1.5, lam=5.0, M=50.0, phi=0.5)]
 
 
 def measures(core, regime, phase, fabric, A, f, L, par=PAR, growth=None):
@@ -169,7 +172,7 @@ def main(tier):
         for rep in range(per if sc["n"] < 1000 else 1):
             phase, fabric = kernel.FAB[sc["fab"]]
             A, f, L = concretise(sc, rng)
-            rec = measures(core, sc["regime"], phase, fabric, A, f, L)
+            rec = measures(core, sc["regime"], phase, fabric, A, f, L, par=PARS[len(records) % len(PARS)])
             rec["id"] = len(records)
             meta[rec["id"]] = dict(kind="float", fabric=sc["fab"], regime=sc["regime"], cls=sc["ori"], scen=sc)
             records.append(rec)
